@@ -37,7 +37,7 @@ type c19Res struct {
 	Panic string   `json:"panic"`
 }
 
-var c19Names = []string{"Timeout", "CorrelationID", "Recoverer", "IgnoreErrors", "InstantAck", "Throttle", "CircuitBreaker", "DelayOnError", "Retry", "Duplicator", "RandomFail", "RandomPanic"}
+var c19Names = []string{"Timeout", "TimeoutZero", "CorrelationID", "Recoverer", "IgnoreErrors", "InstantAck", "Throttle", "CircuitBreaker", "DelayOnError", "Retry", "Duplicator", "RandomFail", "RandomPanic"}
 
 func c19Scripts() [][]c19Res {
 	ok0 := c19Res{[]c19Out{}, "nil", "none"}
@@ -179,6 +179,8 @@ func c19Build(name string, cs c19Case) message.HandlerMiddleware {
 	switch name {
 	case "Timeout":
 		return middleware.Timeout(time.Hour)
+	case "TimeoutZero":
+		return middleware.Timeout(0)
 	case "CorrelationID":
 		return middleware.CorrelationID
 	case "Recoverer":
